@@ -225,7 +225,7 @@ def main(seed, ncases, driver, out):
                     hermitian = True; P = problem(rnd, True, k); d, N = P["d"], P["N"]; Q = copy.deepcopy(P)
                 P2 = problem(rnd, hermitian, k)
                 for X in (P, P2):      # a single block is fully diagonalised by default: make that explicit before merging
-                    if X["N"] == 1 and not isinstance(X["fd"], dict) and not len(X["fd"]): X["fd"] = (0,)
+                    if X["N"] == 1 and not len(X["fd"]): X["fd"] = (0,)          # (an empty tuple or an empty dict of masks alike)
                 if isinstance(P["fd"], dict) or isinstance(P2["fd"], dict): P["fd"] = tuple(P["fd"]); P2["fd"] = tuple(P2["fd"])
                 M = max(N, P2["N"]); d2 = P2["d"]
                 def dsum(a, b2):
